@@ -1,14 +1,15 @@
 """native_x86 -- run single x86-64 instructions on the host CPU (reference side of C18).
 
     from vlib import native_x86 as nx
-    nx.DATA_ADDR                      # address of the 4 KiB data window (below 4 GiB), after nx.lib()
+    nx.data_addr()                    # address of the 4 KiB data window (below 4 GiB)
     outs = nx.run_batch([nx.Case(code, gpr, rflags, xmm, mem), ...])
     out.status (0 ok | signal number | 0xfe child died), out.gpr[16], out.rflags, out.xmm[16], out.mem
 
 The C helper (native_x86.c, next to this file) is compiled on demand with gcc into
-/verif/.build/native_x86-<hash of the source>.so; a changed source gives a new file name, a
-missing file is rebuilt.  Each batch runs in a forked child (fork done in C), so that a crash of the
-tested instruction cannot kill the caller.
+/verif/.build/native_x86-<hash of the source> (an executable); a changed source gives a new file name,
+a missing file is rebuilt.  The executable is a small server started once per Python process and fed
+batches over pipes; it forks one child per batch (a crash of the tested instruction cannot kill the
+caller, and the big Python process is never forked).
 """
 import ctypes
 import fcntl
@@ -41,18 +42,17 @@ class NxCase(ctypes.Structure):
                 ("mem_in", ctypes.c_uint8 * WIN), ("mem_out", ctypes.c_uint8 * WIN)]
 
 
-_lib = None
-DATA_ADDR = None
+_srv = {}          # pid -> (Popen, data address, shared mmap)
 
 
-def so_path():
+def exe_path():
     with open(SRC, "rb") as f:
         h = hashlib.sha256(f.read()).hexdigest()[:16]
-    return os.path.join(BUILD, "native_x86-%s.so" % h)
+    return os.path.join(BUILD, "native_x86-%s" % h)
 
 
 def ensure_built():
-    path = so_path()
+    path = exe_path()
     if os.path.exists(path):
         return path
     os.makedirs(BUILD, exist_ok=True)
@@ -61,7 +61,7 @@ def ensure_built():
         if os.path.exists(path):
             return path
         tmp = path + ".tmp.%d" % os.getpid()
-        p = subprocess.run(["gcc", "-O1", "-shared", "-fPIC", "-Wall", "-o", tmp, SRC],
+        p = subprocess.run(["gcc", "-O1", "-no-pie", "-Wall", "-o", tmp, SRC],
                            stdout=subprocess.PIPE, stderr=subprocess.STDOUT)
         if p.returncode != 0:
             raise RuntimeError("native_x86: gcc failed:\n" + p.stdout.decode("utf-8", "replace"))
@@ -69,27 +69,55 @@ def ensure_built():
     return path
 
 
-def lib():
-    global _lib, DATA_ADDR
-    if _lib is None:
-        l = ctypes.CDLL(ensure_built())
-        l.nx_data_addr.restype = ctypes.c_uint64
-        l.nx_case_size.restype = ctypes.c_uint64
-        l.nx_run_batch.argtypes = [ctypes.c_void_p, ctypes.c_uint32]
-        l.nx_run_batch.restype = ctypes.c_int
-        rc = l.nx_init()
-        if rc != 0:
-            raise RuntimeError("native_x86: nx_init failed (%d)" % rc)
-        if l.nx_case_size() != ctypes.sizeof(NxCase):
-            raise RuntimeError("native_x86: structure layout mismatch")
-        DATA_ADDR = l.nx_data_addr()
-        _lib = l
-    return _lib
+def _read_exact(f, n):
+    chunks = []
+    while n:
+        c = f.read(n)
+        if not c:
+            raise RuntimeError("native_x86: server closed the pipe")
+        chunks.append(c)
+        n -= len(c)
+    return b"".join(chunks)
+
+
+MAX_BATCH = 256
+
+
+def _start(fd):
+    import struct
+    p = subprocess.Popen([ensure_built(), "/dev/fd/%d" % fd], stdin=subprocess.PIPE, stdout=subprocess.PIPE, bufsize=0,
+                         close_fds=True, pass_fds=(fd,))
+    addr, csz = struct.unpack("<QQ", _read_exact(p.stdout, 16))
+    if csz != ctypes.sizeof(NxCase):
+        raise RuntimeError("native_x86: structure layout mismatch")
+    return p, addr
+
+
+def server():
+    """the helper process of *this* process (started on first use, one per pid)
+    -> [Popen, data address, mmap, fd of the shared memory object]"""
+    pid = os.getpid()
+    ent = _srv.get(pid)
+    if ent is not None:
+        if ent[0].poll() is None:
+            return ent
+        ent[0], addr = _start(ent[3])
+        if addr != ent[1]:
+            raise RuntimeError("native_x86: data window moved")
+        return ent
+    import mmap
+    fd = os.memfd_create("native_x86-%d" % pid)      # anonymous shared memory, no file system path
+    size = 4096 + MAX_BATCH * ctypes.sizeof(NxCase)
+    os.ftruncate(fd, size)
+    mm = mmap.mmap(fd, size)
+    p, addr = _start(fd)
+    _srv.clear()
+    _srv[pid] = [p, addr, mm, fd]
+    return _srv[pid]
 
 
 def data_addr():
-    lib()
-    return DATA_ADDR
+    return server()[1]
 
 
 class Case(object):
@@ -119,11 +147,19 @@ _M128 = (1 << 128) - 1
 
 
 def run_batch(cases):
+    outs = []
+    for i in range(0, len(cases), MAX_BATCH):
+        outs.extend(_run_batch(cases[i:i + MAX_BATCH]))
+    return outs
+
+
+def _run_batch(cases):
     import struct
-    l = lib()
     n = len(cases)
     if n == 0:
         return []
+    ent = server()
+    mm = ent[2]
     parts = []
     for c in cases:
         code = bytes(c.code)
@@ -137,11 +173,31 @@ def run_batch(cases):
         parts.append(_ZERO_OUT)
         parts.append(bytes(c.mem))
         parts.append(_ZERO_MEM)
-    buf = ctypes.create_string_buffer(b"".join(parts), n * _CASE_SIZE)
-    rc = l.nx_run_batch(ctypes.cast(buf, ctypes.c_void_p), n)
-    if rc < 0:
-        raise RuntimeError("native_x86: nx_run_batch failed (%d)" % rc)
-    raw = buf.raw
+    blob = b"".join(parts)
+    del parts
+    mm[4096:4096 + len(blob)] = blob
+    del blob
+    start = 0
+    restarts = 0
+    while start < n:
+        ent = server()
+        try:
+            ent[0].stdin.write(struct.pack("<II", start, n))
+            rc = struct.unpack("<i", _read_exact(ent[0].stdout, 4))[0]
+        except (RuntimeError, OSError):
+            # the server died while executing case `progress`
+            ent[0].wait()
+            prog = struct.unpack_from("<I", mm, 0)[0]
+            if not (start <= prog < n) or restarts > n:
+                raise RuntimeError("native_x86: server died outside a case")
+            struct.pack_into("<I", mm, 4096 + prog * _CASE_SIZE + _OFF_STATUS, 0xfe)
+            start = prog + 1
+            restarts += 1
+            continue
+        if rc < 0:
+            raise RuntimeError("native_x86: batch failed (%d)" % rc)
+        break
+    raw = mm[4096:4096 + n * _CASE_SIZE]
     outs = []
     for i in range(n):
         base = i * _CASE_SIZE
